@@ -23,8 +23,8 @@ type Value interface{}
 type VTerm struct{ T Term } // bool, int, float, string, ref, map, func, chan, scalar arrays
 
 type Backing struct {
-	Heap bool  // elements live in the elems heap under Ref
-	Ref  Term  // Heap: backing array id
+	Heap bool   // elements live in the elems heap under Ref
+	Ref  Term   // Heap: backing array id
 	Loc  *VAddr // !Heap: an array stored at an address (local cell or struct field)
 }
 
@@ -54,7 +54,7 @@ type VAddr struct {
 	SKey   string
 	St     *types.Struct
 	Idx    int
-	Base   *VAddr  // AElem over an array location
+	Base   *VAddr   // AElem over an array location
 	Back   *Backing // AElem over a slice backing
 	Index  Term
 	Glob   *ssa.Global
@@ -71,12 +71,12 @@ type VFunc struct {
 // ---------------------------------------------------------------------------------------------
 
 type State struct {
-	pc    Term
-	cells map[*ssa.Alloc]Value
-	heap  map[string]Term
-	epoch int
+	pc     Term
+	cells  map[*ssa.Alloc]Value
+	heap   map[string]Term
+	epoch  int
 	defers map[*ssa.Defer]deferRec
-	dead  bool
+	dead   bool
 }
 
 type deferRec struct {
@@ -135,7 +135,14 @@ func (x *Exec) havocKey(st *State, key string, sort Sort) {
 func (x *Exec) havocAll(st *State) {
 	x.epochCtr++
 	st.epoch = x.epochCtr
-	st.heap = map[string]Term{}
+	// the call counters of this verification are ghost state no callee can touch
+	keep := map[string]Term{}
+	for k, v := range st.heap {
+		if strings.HasPrefix(k, "cnt|") {
+			keep[k] = v
+		}
+	}
+	st.heap = keep
 }
 
 // ---------------------------------------------------------------------------------------------
@@ -180,6 +187,7 @@ func (x *Exec) fresh(typ types.Type, hint string) Value {
 		if typ.String() == "error" {
 			vc.Assert(Ge(val, IntLit(0)))
 		}
+		x.ifaceTyping(tag, typ)
 		return VIface{tag, val}
 	case KSlice:
 		b := vc.Fresh(hint+".b", SInt)
@@ -394,4 +402,17 @@ func sameValue(a, b Value) bool {
 		}
 	}
 	return true
+}
+
+// ifaceTyping: type soundness of interface values: the dynamic type implements the static one.
+func (x *Exec) ifaceTyping(tag Term, typ types.Type) {
+	it, ok := typ.Underlying().(*types.Interface)
+	if !ok || it.NumMethods() == 0 || typ.String() == "error" {
+		return
+	}
+	if _, named := typ.(*types.Named); !named {
+		return
+	}
+	id := x.implementsFacts(typ)
+	x.fact("ityp:"+tag.S+":"+typeKey(typ), Or(Eq(tag, IntLit(0)), app(SBool, "implements", tag, IntLit(id))))
 }
